@@ -1440,6 +1440,16 @@ impl<'p> Evaluator<'_, 'p> {
         Ok(())
     }
 
+    // Counts the nesting of JsonML elements so that endless structures hit the
+    // stack limit.
+    fn push_nested_manifest_xml_jsonml_trace_item(&mut self) {
+        let name = self.program.intern_str("manifestXmlJsonml");
+        self.push_trace_item(TraceItem::Call {
+            span: None,
+            name: Some(name),
+        });
+    }
+
     fn prepare_manifest_xml_jsonml_array(
         &mut self,
         array: GcView<ArrayData<'p>>,
@@ -1508,6 +1518,7 @@ impl<'p> Evaluator<'_, 'p> {
                 let result = self.string_stack.last_mut().unwrap();
                 result.push('>');
 
+                self.push_nested_manifest_xml_jsonml_trace_item();
                 self.prepare_manifest_xml_jsonml_array(array.view())?;
                 Ok(())
             }
@@ -1550,7 +1561,10 @@ impl<'p> Evaluator<'_, 'p> {
                 result.push_str(&s);
                 Ok(())
             }
-            ValueData::Array(array) => self.prepare_manifest_xml_jsonml_array(array.view()),
+            ValueData::Array(array) => {
+                self.push_nested_manifest_xml_jsonml_trace_item();
+                self.prepare_manifest_xml_jsonml_array(array.view())
+            }
             _ => Err(self.report_error(EvalErrorKind::Other {
                 span: None,
                 message: format!(
